@@ -150,6 +150,13 @@ def run(vc):
                 continue
             for pi in paths:
                 hyps = list(pi["hyps"]) + hyps_j + [passed[k]]
+                # a pair of paths that no two runs can take together needs no obligation (and would be proved from contradictory hypotheses)
+                sol = z3.Solver()
+                sol.set("timeout", 2000)
+                sol.add(*hyps)
+                if sol.check() == z3.unsat:
+                    vc.extra["path_pairs_that_cannot_occur_together"] = vc.extra.get("path_pairs_that_cannot_occur_together", 0) + 1
+                    continue
                 labels = sorted(set(pi["res"]) | set(res_j))
                 conj = []
                 for lab in labels:
